@@ -504,8 +504,8 @@ func TestC16(t *testing.T) {
 			"bchd's own Serialize o Deserialize reproduces byte-for-byte are used (others counted as dependency-precondition-failed). "+
 			"Non-trivial = n>=2 and the history interleaves Tx(i) before Transactions() or uses an out-of-range index.",
 			"bchd wire serialisation / hashing is the definition of 'fresh computation'")
-		kC16.Run(t, ev, perShard(pick(3000, 300000)))
-		kC16Tx.Run(t, ev, perShard(pick(1500, 150000)))
+		kC16.Run(t, ev, perShard(pick(3000, 1500000)))
+		kC16Tx.Run(t, ev, perShard(pick(1500, 750000)))
 		ev.requireClasses("C16:ctor=0", "C16:ctor=1", "C16:ctor=2", "C16:ctor=3", "C16:sparse-cache-then-all",
 			"C16:out-of-range-index", "C16:empty-block", "C16:block-with-token-data", "C16:tx-ctor=1", "C16:sibling-block-interleaved")
 	})
